@@ -465,6 +465,78 @@ theorem annotWrapper_sample_order (innerPicks nAs : List Nat) (b : Nat) (hnd : i
   intro s hs
   exact mem_expand nAs innerPicks s (List.mem_of_mem_take hs)
 
+/-- **`n_annotators_per_sample` as documented**: an int is the request for every ranked sample; an
+array is cut to the ranking when longer, and when shorter it is extended by repeating its LAST entry
+(not cycled): entry `t` of `pref_n_annotators` is `l[t]` inside the array and `l.getLast` beyond it. -/
+theorem prefVector_documented (sq : Nat) :
+    (∀ n, prefVector (.int n) sq = List.replicate sq n) ∧
+    (∀ l : List Nat, sq < l.length → prefVector (.arr l) sq = l.take sq) ∧
+    (∀ (l : List Nat) (hne : l ≠ []), l.length ≤ sq →
+      (prefVector (.arr l) sq).length = sq ∧
+      ∀ t, t < sq → (prefVector (.arr l) sq).getD t 0 =
+        if h : t < l.length then l[t] else l.getLast hne) := by
+  refine ⟨fun n => rfl, ?_, ?_⟩
+  · intro l h; simp [prefVector, h]
+  · intro l hne hle
+    refine ⟨prefVector_length _ _, ?_⟩
+    intro t ht
+    have hnot : ¬ sq < l.length := by omega
+    simp only [prefVector, if_neg hnot, List.getD_eq_getElem?_getD]
+    by_cases h : t < l.length
+    · rw [dif_pos h, List.getElem?_append_left h, List.getElem?_eq_getElem h]; rfl
+    · rw [dif_neg h, List.getElem?_append_right (by omega), List.getElem?_replicate, if_pos (by omega)]
+      simp only [Option.getD_some]
+      cases l with
+      | nil => exact absurd rfl hne
+      | cons a as => simp [List.getLast_eq_getLastD, List.getLast?_cons]
+
+section Naps
+variable {α : Type} [Field α] [LinearOrder α] [IsStrictOrderedRing α]
+variable {β : Type} [LinearOrder β] [Zero β]
+
+/-- **The requested number of annotators per sample is respected whenever enough annotators are
+available**: if every ranked sample `sIdx[t]` has at least `pref[t]` available annotators
+(`pref ≤ nmax` pointwise) and the requests fill the batch (`b ≤ Σ pref`), then `nAs = pref` and the
+batch serves the ranked samples in order, sample `t` exactly `pref[t]` times (the last one served is
+cut by the batch size): consecutive same-sample groups of sizes `pref`. -/
+theorem naps_respected
+    (ninf : α) (cast : Nat → α) (hcast : ∀ a b : Nat, a < b → cast a + 1 ≤ cast b)
+    (fuel m b : Nat) (hm : 0 < m)
+    (A : List (List Bool)) (hrect : ∀ r ∈ A, r.length = m)
+    (candRows : List (List (Option α))) (sIdx : List Nat) (au : List α) (pref : List Nat)
+    (noises : List (List β))
+    (hT : candRows.length = sIdx.length) (hP : pref.length = sIdx.length)
+    (hinner : ∀ (t : Nat) (row : List (Option α)) (s : Nat), candRows[t]? = some row → sIdx[t]? = some s →
+      row.length = A.length ∧ s < A.length ∧ ∃ v, row[s]? = some (some v))
+    (hnodup : sIdx.Nodup)
+    (hau : au.length = A.length * m) (hau01 : ∀ a ∈ au, 0 ≤ a ∧ a < 1)
+    (hpref : ∀ x ∈ pref, 1 ≤ x)
+    (henough : LeL pref (sIdx.map (fun s => countRow (A.getD s []))))
+    (hfill : b ≤ pref.sum)
+    (hfuel : (sIdx.map (fun s => countRow (A.getD s []))).sum ≤ fuel)
+    (hnoise : b ≤ noises.length) (hpos : PosNoise (A.length * m) noises) :
+    ∃ out, queryAnnotators ninf cast fuel m b A candRows sIdx au pref noises = .ok (pref, out) ∧
+      out.length = b ∧ out.map (fun r => r.1 / m) = (expand pref sIdx).take b := by
+  have hinit := assignInit_eq_of_le _ _ henough
+  have havail1 : ∀ s ∈ sIdx, 1 ≤ countRow (A.getD s []) := by
+    intro s hs
+    obtain ⟨t, ht, rfl⟩ := List.getElem_of_mem hs
+    have h1 := LeL.getD henough t
+    have h2 : 1 ≤ pref.getD t 0 := by
+      apply hpref
+      have : t < pref.length := by omega
+      simp [List.getD_eq_getElem?_getD, List.getElem?_eq_getElem this]
+    have h3 : (sIdx.map (fun s => countRow (A.getD s []))).getD t 0 = countRow (A.getD sIdx[t] []) := by
+      simp [List.getD_eq_getElem?_getD, List.getElem?_map, List.getElem?_eq_getElem ht]
+    omega
+  obtain ⟨nAs, out, h, hl, -, -, heq, -, -, -, -, -, hs⟩ :=
+    queryAnnotators_valid ninf cast hcast fuel m b hm A hrect candRows sIdx au pref noises hT hP hinner hnodup
+      hau hau01 hpref havail1 (by have := LeL.sum_le henough; omega) hfuel hnoise hpos
+  have : nAs = pref := by rw [heq (by rw [hinit]; exact hfill), hinit]
+  subst this
+  exact ⟨out, h, hl, hs⟩
+
+end Naps
 section IET
 variable {α : Type} [LinearOrder α] [Zero α] [Add α]
 variable {β : Type} [LinearOrder β] [Zero β]
